@@ -706,6 +706,12 @@ pub fn gen_read_scn(id: &str, rng: &Rng, tier: Tier) -> ReadScn {
                 let k = rng.range(0, n + 1);
                 let mut o: Vec<Op> = (0..k).map(|_| match rng.below(4) { 0 | 1 => Op::Next, 2 => Op::ReadSetExact(0, rng.range(2, 4)), _ => Op::ReadSet(0) }).collect();
                 o.push(Op::SeekRec(rng.below(n as u64) as usize));
+                if rng.chance(1, 3) {
+                    // ... or after a seek that failed because the source could not seek (every seek
+                    // call of the source fails; seeks inside the buffer do not get that far)
+                    cfg.faults.push(Fault { call: usize::MAX, kind: rng.pick(FAULT_KINDS).to_string(), payload: String::new() });
+                    profile.push_str("/source_seek_fails");
+                }
                 if rng.chance(1, 2) {
                     o.extend(ops_next_to_end(n));
                 } else {
@@ -728,6 +734,14 @@ pub fn run_read(jo: &JudgeOpts, scn: &ReadScn, st: &mut Stats) -> RunResult {
         st.set_insert("nontrivial", h);
     }
     let mut v = judge(&m, scn, &log, jo);
+    if jo.prop == "C20" && v.is_empty() && scn.mon.iter_seed % 3 == 0 {
+        // the owned-record iterators of the reader itself, stepped with next / nth / skip / step_by
+        // and asked for their size hint (a second and third reader on the same scenario)
+        st.probe("probe.reader_iterator_stepped");
+        if let Some((rule, d)) = crate::drive::stepped_drain(scn, cfg, scn.mon.iter_seed) {
+            v.push(Violation::new(&format!("C20.{}", rule), d));
+        }
+    }
     if !v.is_empty() {
         let f = features(scn, cfg);
         for x in v.iter_mut() {
